@@ -27,6 +27,7 @@ type storeSink struct {
 func checkC10(p *Program, r *Report) {
 	r.Explain("C10: agreement with a Go model for all index values is value-level and not decided. Decided are structural necessary conditions: " +
 		"R1 typed stores convert first: at every place where package vm stores into a typed container through reflect (Value.Set, SetMapIndex key and value, reflect.Append/AppendSlice, the Send of a select case) the stored value's type term equals (or is assignable to) the type term the sink requires. " +
+		"R14 a function that concatenates two of its slice parameters with reflect.AppendSlice never returns the right operand itself (the result of + never shares storage with the right operand). " +
 		"R2 keys are hashable before use. R3 failure leaves the container unchanged. R4 reads and writes address the same element. R5 missing key reads nil, unknown field is an error. " +
 		"R6 a container that had to be replaced (append at len, nil map, rebuilt string) is assigned back to the node's own container operand: at every call of the assignment dispatcher in the element/member write handlers the expression cell holds exactly that operand.")
 	r.Assume("that every in-range operation returns exactly the addressed element for every index value, storage sharing of 3-index slices and automatic growth are reflect's and are not decided; a missing bounds guard still yields an error through the boundary recover of C01")
@@ -61,6 +62,91 @@ func checkC10(p *Program, r *Report) {
 	c10ContainerConverters(p, r, m, "C10.R12")
 	accessorKindAgreement(p, r, m, "C10.R13")
 	c10DeleteValidates(p, r, m)
+	c10ConcatFresh(p, r, m, "C10.R14")
+}
+
+// c10ConcatFresh (R14): a function of vm that concatenates two slices with reflect.AppendSlice(left, right), both
+// operands being its own parameters, never hands back the right operand itself. Go's append(a, b...) yields storage
+// that belongs to a (or fresh storage): a result that IS b makes a later store through the result change b.
+func c10ConcatFresh(p *Program, r *Report, m *vmModel, rule string) {
+	n := 0
+	for _, fn := range SrcFuncs(m.sp) {
+		var left, right *ssa.Parameter
+		for _, b := range fn.Blocks {
+			for _, in := range b.Instrs {
+				c, ok := in.(*ssa.Call)
+				if !ok {
+					continue
+				}
+				if o := calleeObj(c); o == nil || !isFuncNamed(o, "reflect", "", "AppendSlice") {
+					continue
+				}
+				l, ok1 := paramBehind(c.Call.Args[0])
+				rr, ok2 := paramBehind(c.Call.Args[1])
+				if ok1 && ok2 && l != rr {
+					left, right = l, rr
+				}
+			}
+		}
+		if left == nil {
+			continue
+		}
+		n++
+		k := 0
+		for _, b := range fn.Blocks {
+			ret, ok := b.Instrs[len(b.Instrs)-1].(*ssa.Return)
+			if !ok || len(ret.Results) == 0 {
+				continue
+			}
+			k++
+			bad := false
+			seen := map[ssa.Value]bool{}
+			var walk func(v ssa.Value, d int)
+			walk = func(v ssa.Value, d int) {
+				if d > 8 || seen[v] {
+					return
+				}
+				seen[v] = true
+				if sv := spilledValue(v); sv != nil {
+					v = sv
+				}
+				switch x := v.(type) {
+				case *ssa.Parameter:
+					if x == right {
+						bad = true
+					}
+				case *ssa.Phi:
+					for _, e := range x.Edges {
+						walk(e, d+1)
+					}
+				}
+			}
+			walk(ret.Results[0], 0)
+			r.Check(!bad, rule, fmt.Sprintf("%s|return #%d is not the right operand", funcName(fn), k), p.Pos(ret.Pos()),
+				"the result is the left operand, a reflect.Append/AppendSlice of it, or an error value",
+				"a slice concatenation hands back its right operand itself ("+right.Name()+"): the result shares storage with that operand, so a store through the result changes it — Go's append never does that")
+		}
+	}
+	r.Floor(rule, n, 1)
+}
+
+// paramBehind: v is a parameter of its function (directly, or the load of the parameter's spill slot).
+func paramBehind(v ssa.Value) (*ssa.Parameter, bool) {
+	if sv := spilledValue(v); sv != nil {
+		v = sv
+	}
+	if p, ok := v.(*ssa.Parameter); ok {
+		return p, true
+	}
+	if ph, ok := v.(*ssa.Phi); ok {
+		// a parameter that is re-assigned in a loop (lhsV = reflect.Append(lhsV, ...)) is still the left operand
+		for _, e := range ph.Edges {
+			if p, ok := e.(*ssa.Parameter); ok {
+				return p, true
+			}
+		}
+	}
+	return nil, false
 }
 
 func c10Sinks(p *Program, r *Report, m *vmModel, sums *typeSummaries) {
